@@ -48,6 +48,35 @@ M=[ # (property, file under src/, old, new, description)
  ("C20","aeswrapper/aes.wrapper.go","	if len(data) < nonceSize {\n		return nil, ErrOpenDataFailure\n	}\n","","no length guard before slicing the nonce"),
  ("C02","spice/spice.go","			to.Currency += amount.Currency\n			from.Currency -= amount.Currency","			to.Currency += amount.Currency","Transfer forgets to debit the currency part"),
 ]
+M2=[ # second batch (with an optional anchor: the edit is made at the first occurrence of `old` after it)
+ ("C01","accountant/accountant.go","			if err := pourFunds(leaf.Transaction.IssuerAddress, *vrx, &spiceIn, &spiceOut); err != nil {","			if err := pourFunds(leaf.Transaction.ReceiverAddress, *vrx, &spiceIn, &spiceOut); err != nil {","ancestors counted for the receiver instead of the issuer","func (ab *AccountingBook) validateLeaf("),
+ ("C01","accountant/founds.go","		return errors.Join(ErrDoubleSpending, err)","		return nil","overdraw error swallowed"),
+ ("C03","accountant/accountant.go","				ab.dag.DeleteVertex(string(vrx.Hash[:]))\n				ab.removeTrxInVertex(vrx.Transaction.Hash[:])\n","				ab.dag.DeleteVertex(string(vrx.Hash[:]))\n","invalid tip dropped by getValidLeaves keeps its index entry"),
+ ("C03","accountant/accountant.go","		ab.removeTrxInVertex(trx.Hash[:])\n		ab.log.Error(fmt.Sprintf(\"Accounting book rejected new leaf","		ab.log.Error(fmt.Sprintf(\"Accounting book rejected new leaf","CreateLeaf leaves the index entry when the graph refuses the vertex"),
+ ("C04","accountant/vertex.go","	return verifier.Verify(data, v.Signature[:], v.Hash, v.SignerPublicAddress)","	return verifier.Verify(data, v.Signature[:], v.Hash, v.Transaction.IssuerAddress)","seal verified against the issuer address"),
+ ("C04","accountant/vertex.go","	switch len(v.Transaction.ReceiverSignature) != 0 {","	switch len(v.Transaction.ReceiverSignature) > 64 {","receiver signature never verified"),
+ ("C05","spice/spice.go","			if math.MaxUint64-amount.Currency < to.Currency {\n				return ErrValueOverflow\n			}\n","","Transfer without the overflow guard","func Transfer("),
+ ("C06","accountant/accountant.go","		if err := pourFunds(walletPubAddr, *vrx, &spiceIn, &spiceOut); err != nil {\n			return Balance{}, err\n		}\n","","balance ignores the tip vertex","func (ab *AccountingBook) CalculateBalance("),
+ ("C08","accountant/accountant.go","					drainWalker(vertices)\n					break leavesLoop\n				default:\n				}","					break leavesLoop\n				default:\n				}","StreamDAG abandons the walker on cancellation","func (ab *AccountingBook) StreamDAG("),
+ ("C08","accountant/accountant.go","	ab.mux.Lock()\n	defer ab.mux.Unlock()\n\nVertexLoop:","	ab.mux.Lock()\n\nVertexLoop:","LoadDag never releases the ledger lock"),
+ ("C10","accountant/accountant.go","	if leaf.Transaction.IssuerAddress == ab.genesisPublicAddress {\n		return ErrCannotTransferFoundsFromGenesisWallet\n	}\n","","gossip route accepts spends of the genesis wallet"),
+ ("C11","gossip/gossip.go","createGossiperMessageToSign(g.signer.Address(), [32]byte(vg.Vertex.Hash))","createGossiperMessageToSign(g.signer.Address(), [32]byte(vg.Vertex.Transaction.Hash))","own gossiper entry signed over another hash"),
+ ("C11","gossip/gossip.go","			g.log.Error(fmt.Sprintf(\"transaction gossiper trx %v verification failed, %s\", trx.Hash, err))\n			return nil, ErrFailedToProcessGossip\n","			g.log.Error(fmt.Sprintf(\"transaction gossiper trx %v verification failed, %s\", trx.Hash, err))\n","transaction forwarded although the issuer signature failed"),
+ ("C12","gossip/gossip.go","createGossiperMessageToSign(member.Address, hash), member.Signature","createGossiperMessageToSign(member.Address, [32]byte(member.Digest)), member.Signature","entries signed for another item are accepted"),
+ ("C13","accountant/replier.go","	m.repeated++\n","","retries are not counted"),
+ ("C13","accountant/replier.go","	b.members = b.members[1:]\n","","getNext never removes what it hands out"),
+ ("C14","accountant/accountant.go","				if err := ab.dag.AddEdge(string(conn[:]), string(vrx.Hash[:])); err != nil {\n					cancelF(err)\n					return\n				}","				if err := ab.dag.AddEdge(string(conn[:]), string(vrx.Hash[:])); err != nil {\n					cancelF(err)\n				}","load goes on after an unknown parent"),
+ ("C16","notaryserver/notary.server.go","		s.log.Error(fmt.Sprintf(\"reject endpoint failed to verify signature of transaction [ %x ] for address: %s, %s\", in.Hash, in.Address, err))\n		return nil, ErrProcessing\n","		s.log.Error(fmt.Sprintf(\"reject endpoint failed to verify signature of transaction [ %x ] for address: %s, %s\", in.Hash, in.Address, err))\n","Reject goes on after a failed signature check"),
+ ("C16","notaryserver/notary.server.go","	if trx.IsContract() {\n		if len(trx.Data) > s.dataSize {","	if trx.IsContract() && !trx.IsSpiceTransfer() {\n		if len(trx.Data) > s.dataSize {","data-carrying transfer sealed on the issuer signature alone"),
+ ("C16","notaryserver/notary.server.go","	if string(in.Data) != in.Address {\n		return nil, ErrVerification\n	}\n","","Balance no longer requires the signed data to be the own address"),
+ ("C17","cache/cache.go","	if trx.IssuerAddress == trx.ReceiverAddress {\n		addresses = addresses[1:]","	if trx.IssuerAddress != trx.ReceiverAddress {\n		addresses = addresses[1:]","saved transaction is not listed for its issuer"),
+ ("C17","cache/cache.go","	for _, addressKey := range addresses {\n		awaited, err := h.mem.Get(addressKey)\n		if err != nil {\n			if errors.Is(err, bigcache.ErrEntryNotFound) {\n				errs = err","	for _, addressKey := range addresses[1:] {\n		awaited, err := h.mem.Get(addressKey)\n		if err != nil {\n			if errors.Is(err, bigcache.ErrEntryNotFound) {\n				errs = err","removal leaves the hash on the issuer's list"),
+ ("C19","gossip/gossip.go","		RightParentHash: vrx.RightParentHash[:],","		RightParentHash: vrx.LeftParentHash[:],","right parent replaced by the left one on the wire"),
+ ("C19","transformers/transaction.go","			SupplementaryCurrency: trx.Spice.SupplementaryCurrency,","			SupplementaryCurrency: trx.Spice.Currency,","supplementary amount replaced on the wire"),
+ ("C19","gossip/gossip.go","		Weight:          vg.Weight,\n","","weight dropped when reading a vertex off the wire"),
+ ("C07","accountant/storage.go","			if len(k) == 32 {\n				continue\n			}","			if len(k) >= 32 {\n				continue\n			}","previous checkpoint entries are skipped when carried over"),
+ ("C15","gossip/gossip.go","	if vg.Vertex == nil || len(vg.Vertex.Hash) != 32 {\n		return nil, ErrNilVertex\n	}","	if vg.Vertex == nil {\n		return nil, ErrNilVertex\n	}","GossipVrx no longer checks the hash length"),
+]
 N=[ # neutral edits: every check must stay at exit 0
  ("accountant/accountant.go","	validatedLeafs := make([]*Vertex, 0, 2)\n","	validatedLeafs := make([]*Vertex, 0, 2)\n	ab.log.Debug(\"validating the parents of an incoming leaf\")\n","add a log line"),
  ("accountant/founds.go","	sink := spice.New(0, 0)\n	if err := in.Drain(*out, &sink); err != nil {","	target := spice.New(0, 0)\n	if err := in.Drain(*out, &target); err != nil {","rename a local"),
@@ -56,13 +85,30 @@ N=[ # neutral edits: every check must stay at exit 0
  ("spice/spice.go","func (m *Melange) copyFrom(c Melange) {\n	m.Currency = c.Currency\n	m.SupplementaryCurrency = c.SupplementaryCurrency\n}","func (m *Melange) copyFrom(c Melange) {\n	m.SupplementaryCurrency = c.SupplementaryCurrency\n	m.Currency = c.Currency\n}","reorder two independent stores"),
  ("gossip/gossip.go","func createGossiperMessageToSign(address string, hash [32]byte) []byte {\n	return append([]byte(address), hash[:]...)\n}","func createGossiperMessageToSign(address string, hash [32]byte) []byte {\n	msg := []byte(address)\n	return append(msg, hash[:]...)\n}","introduce a temporary"),
 ]
-def mk(kind, name, f, old, new):
+N2=[ # neutral edits that need more than one replacement: (file, [(old,new)...], description)
+ ("accountant/accountant.go",[("	if trx.IssuerAddress == ab.signer.Address() {\n		return Vertex{}, ErrCannotTransferFoundsViaOwnedNode","	if ab.isOwnWallet(trx.IssuerAddress) {\n		return Vertex{}, ErrCannotTransferFoundsViaOwnedNode"),("// Address returns signer public address","func (ab *AccountingBook) isOwnWallet(a string) bool {\n	return a == ab.signer.Address()\n}\n\n// Address returns signer public address")],"extract a helper for the own-wallet test"),
+ ("accountant/vertex.go",[("	switch len(v.Transaction.ReceiverSignature) != 0 {\n	case true:\n		if err := v.Transaction.VerifyIssuerReceiver(verifier); err != nil {\n			return err\n		}\n	default:\n		if err := v.Transaction.VerifyIssuer(verifier); err != nil {\n			return err\n		}\n	}","	if len(v.Transaction.ReceiverSignature) != 0 {\n		if err := v.Transaction.VerifyIssuerReceiver(verifier); err != nil {\n			return err\n		}\n	} else if err := v.Transaction.VerifyIssuer(verifier); err != nil {\n		return err\n	}")],"switch on a boolean rewritten as if/else"),
+ ("notaryserver/notary.server.go",[("	if in == nil || len(in.Hash) != 32 || len(in.Data) != 32 {\n		return nil, ErrRequestIsEmpty\n	}\n\n	if err := s.verifier.Verify(in.Data, in.Signature, [32]byte(in.Hash), in.Address); err != nil {\n		s.log.Error(fmt.Sprintf(\"reject endpoint","	if in == nil || !(len(in.Hash) == 32 && len(in.Data) == 32) {\n		return nil, ErrRequestIsEmpty\n	}\n\n	if err := s.verifier.Verify(in.Data, in.Signature, [32]byte(in.Hash), in.Address); err != nil {\n		s.log.Error(fmt.Sprintf(\"reject endpoint")],"De Morgan on a guard"),
+ ("gossip/gossip.go",[("		if member == nil || len(member.Digest) != 32 {\n			continue\n		}","		if member == nil {\n			continue\n		}\n		if len(member.Digest) != 32 {\n			continue\n		}")],"split a guard in two"),
+ ("spice/spice.go",[("	toCp := to.Clone()\n	fromCp := from.Clone()","	fromCp := from.Clone()\n	toCp := to.Clone()")],"reorder two independent declarations"),
+ ("accountant/accountant.go",[("	if leaf.Transaction.IssuerAddress == leaf.SignerPublicAddress {\n		return ErrCannotTransferFoundsViaOwnedNode","	if leaf.SignerPublicAddress == leaf.Transaction.IssuerAddress {\n		return ErrCannotTransferFoundsViaOwnedNode")],"swap the operands of =="),
+ ("cache/cache.go",[("	var errs error\n	addresses := []string{encodeAddressKey(trx.IssuerAddress), encodeAddressKey(trx.ReceiverAddress)}","	var errs error = nil\n	issuerKey, receiverKey := encodeAddressKey(trx.IssuerAddress), encodeAddressKey(trx.ReceiverAddress)\n	addresses := []string{issuerKey, receiverKey}")],"name two sub-expressions"),
+ ("accountant/accountant.go",[("		visited[ancestorID] = struct{}{}\n\n		item, err := ab.dag.GetVertex(ancestorID)\n		if err != nil {\n			drainWalker(vertices)\n			return errors.Join(ErrUnexpected, err)\n		}\n		switch vrx := item.(type) {\n		case *Vertex:\n			if vrx == nil {\n				drainWalker(vertices)\n				return ErrUnexpected\n			}\n			if vrx.Hash == leaf.LeftParentHash","\n		item, err := ab.dag.GetVertex(ancestorID)\n		if err != nil {\n			drainWalker(vertices)\n			return errors.Join(ErrUnexpected, err)\n		}\n		switch vrx := item.(type) {\n		case *Vertex:\n			if vrx == nil {\n				drainWalker(vertices)\n				return ErrUnexpected\n			}\n			if vrx.Hash == leaf.LeftParentHash")],"drop a redundant de-duplication (the graph library's walker never delivers an id twice)"),
+ ("transformers/transaction.go",[("	if prTrx == nil || prTrx.Subject == \"\" || prTrx.IssuerAddress == \"\" ||","	if prTrx == nil {\n		return transaction.Transaction{}, ErrTrxIsEmpty\n	}\n	if prTrx.Subject == \"\" || prTrx.IssuerAddress == \"\" ||")],"nil test moved into its own statement"),
+]
+def mk(kind, name, f, old, new, within=None):
     p=os.path.join(REPO,'src',f)
     if not os.path.exists(p): return None
     s=open(p).read()
-    if s.count(old)<1 or old=="" : 
+    start=0
+    if within:
+        if s.count(within)!=1:
+            print("SKIP (anchor not unique):",name); return None
+        start=s.index(within)
+    if old=="" or s.find(old,start)<0:
         print("SKIP (pattern not found):",name); return None
-    open(p,'w').write(s.replace(old,new,1))
+    i=s.find(old,start)
+    open(p,'w').write(s[:i]+new+s[i+len(old):])
     d=subprocess.run(['git','-C',REPO,'diff','--','src'],capture_output=True,text=True).stdout
     subprocess.run(['git','-C',REPO,'checkout','--','src/'+f])
     out=os.path.join('/verif/selftest',kind,name+'.patch')
@@ -70,15 +116,30 @@ def mk(kind, name, f, old, new):
     return out
 assert subprocess.run(['git','-C',REPO,'status','--porcelain','--','src'],capture_output=True,text=True).stdout.strip()=="" , "repo dirty"
 idx={}; meta=[]
-for prop,f,old,new,desc in M:
+for e in M+M2:
+    prop,f,old,new,desc=e[:5]
     idx[prop]=idx.get(prop,0)+1
     name="%s-%d"%(prop,idx[prop])
-    o=mk('mutants',name,f,old,new)
+    o=mk('mutants',name,f,old,new,e[5] if len(e)>5 else None)
     if o: meta.append({"name":name,"property":prop,"what":desc,"file":f})
 json.dump(meta,open('/verif/selftest/mutants/INDEX.json','w'),indent=1)
 nm=[]
-for i,(f,old,new,desc) in enumerate(N):
-    o=mk('neutral',"neutral-%d"%(i+1),f,old,new)
+for i,e in enumerate(N):
+    f,old,new,desc=e[:4]
+    o=mk('neutral',"neutral-%d"%(i+1),f,old,new,e[4] if len(e)>4 else None)
     if o: nm.append({"name":"neutral-%d"%(i+1),"what":desc,"file":f})
+k=len(N)
+for j,(f,edits,desc) in enumerate(N2):
+    name="neutral-%d"%(k+j+1)
+    p=os.path.join(REPO,'src',f); src=open(p).read(); ok=True
+    for old,new in edits:
+        if src.count(old)<1: print("SKIP (pattern not found):",name,repr(old[:40])); ok=False; break
+        src=src.replace(old,new,1)
+    if not ok: continue
+    open(p,'w').write(src)
+    d=subprocess.run(['git','-C',REPO,'diff','--','src'],capture_output=True,text=True).stdout
+    subprocess.run(['git','-C',REPO,'checkout','--','src/'+f])
+    open('/verif/selftest/neutral/'+name+'.patch','w').write(d)
+    nm.append({"name":name,"what":desc,"file":f})
 json.dump(nm,open('/verif/selftest/neutral/INDEX.json','w'),indent=1)
 print(len(meta),"mutants",len(nm),"neutral")
